@@ -15,6 +15,19 @@ S = {
  "agent-C17": "own DSP memory allocated without zero-fill ('Reset clears it anyway'): memory of an instance used before its first Reset depends on the heap contents",
  "agent-C18": "DMA linear-copy fast path on shared_memory.raw checks only the start addresses and bypasses ReadWord/WriteWord (assertion and observer): a row starting near the end of data memory runs past the array; needs space 0/0, word mode, both steps exactly 1, size1/size2 <= 1",
  "agent-C19": "DataChannel made lock-free with separate atomics for ready and data: no C++ data race (TSan silent) but the receiver can read the previous message as fresh between the two stores, and the new value is left with ready = false",
+ "agent2-C06": "Btdmp Tick/Skip share a DequeueFrame helper and Skip no longer clears the full flag: needs the FIFO filled to exactly 16, an idle guest, one Run slice crossing a 4096-cycle frame boundary, and the status (MMIO 0x2C2) observed before the next ticked frame",
+ "agent2-C07": "ICU::Trigger signals every line whose enable mask intersects the ACCUMULATED pending register instead of the bits raised by this call: an unrelated trigger re-enters the handler of a line that still has an unacknowledged request",
+ "agent2-C08": "ContextStore moves b1 into a1 through SatAndSetAccAndFlag: with ccnta = 1, the hidden bank's sata bit clear (reset value) and b1 outside the signed 32-bit range at the interrupted boundary, b1 is clamped by entry + retic",
+ "agent2-C09": "StoreBlockRepeat's frame shift rewritten as a loop with the bound computed after --bcn: bkrepsto while two or more block repeats are active leaves the innermost frame unshifted (interrupt handler saving the frame inside a nested loop)",
+ "agent2-C11": "InMMIO as one wrapping compare u16(addr - base) < 0x800: for a window base above 0xF800 the lowest data addresses are routed to MMIO cells instead of memory",
+ "agent2-C12": "Dma accessors use a cached Channel* window updated only by ActivateChannel; Dma::Reset does not re-bind it: after Reset with channel k selected, register 0x1BE reads 0 but the window still shows channel k",
+ "agent2-C13": "Ahbm::Read32 fetches two 16-bit burst units with one read_external32 at (address & ~3): a 16-bit burst read starting at an address that is 2 mod 4 is shifted by one halfword; aligned bursts use 32-bit callbacks",
+ "agent2-C14": "lock-free data-ready mask for the status registers 0x0D6/0x0D8, set after Send returns: a receive from inside the host's receive handler (or in the window from another thread) clears a bit that is not set yet, and the late fetch_or leaves it set for ever",
+ "agent2-C15": "Timer::Tick calls UpdateMMIO once at the end for every path: a stopped single-shot timer (counter 0) keeps rewriting the counter mirror while ticking but not while skipping; needs MU toggled so that the mirror is stale",
+ "agent2-C16": "Btdmp::Skip advances the transmit timer before testing transmit_enable: phase moves while the port is disabled (horizon infinite), frames arrive early after re-enable",
+ "agent2-C17": "Ahbm::Reset resets the channel registers in place and forgets burst_queue: a burst left half-filled before Reset delivers stale words / flushes to address 0 after Reset",
+ "agent2-C18": "ShiftBus40 cut-off moved from >= 40 to > 40: sv = +40 or -40 in arithmetic mode calls SignExtend with bit_count 0 (shift by 2^32-1)",
+ "agent2-C19": "interrupt latches drained only when a summary flag is set, flag cleared after the drain: a host SendData landing between a latch exchange and the flag store is lost unless another source signals later; needs a second interrupt source",
 }
 root = os.path.join(os.path.dirname(os.path.abspath(__file__)), "..", "seeded")
 for k, v in S.items():
